@@ -25,4 +25,14 @@ NoDev == {}
 ImplDev == {"PauseRace", "StepOutReadsTopOfStack"}
 RaceDev == {"PauseRace"}
 StepOutDev == {"StepOutReadsTopOfStack"}
+NextDev == {"NextIgnoresCallDepth"}
+(* recursion: the address behind `go: jsr f` is reached inside the nested call first                              *)
+(* 1 ldx #2 / 2 jsr f / 3 nop / 4 brk / 5 f: dex / 6 bne go / 7 jmp out / 8 go: jsr f / 9 out: rts              *)
+ProgRecur == <<I("ldx", 2), I("jsr", 5), I("nop", 0), I("brk", 0), I("dex", 0), I("bne", 8), I("jmp", 9), I("jsr", 5), I("rts", 0)>>
+(* the subroutine directly follows the call: 1 ldx #2 / 2 jsr f / 3 f: dex / 4 bne ret / 5 brk / 6 ret: rts         *)
+ProgAdjacent == <<I("ldx", 2), I("jsr", 3), I("dex", 0), I("bne", 6), I("brk", 0), I("rts", 0)>>
+Id9 == <<1, 2, 3, 4, 5, 6, 7, 8, 9>>
+Id6 == <<1, 2, 3, 4, 5, 6>>
+BpsRecur == {{8}}
+BpsAdjacent == {{2}}
 ================================================================================
